@@ -190,6 +190,18 @@ def _is_simple_arg(e: ast.AST) -> bool:
     return False
 
 
+def _read_once_outside_loops(stmt: ast.AST, name: str) -> bool:
+    """Is `name` read exactly once in the expression, and not inside a lambda or comprehension (where it would be evaluated repeatedly or later)?"""
+    reads = [n for n in ast.walk(stmt) if isinstance(n, ast.Name) and n.id == name and isinstance(n.ctx, ast.Load)]
+    if len(reads) != 1:
+        return False
+    for scope in ast.walk(stmt):
+        if isinstance(scope, (ast.Lambda, ast.ListComp, ast.SetComp, ast.DictComp, ast.GeneratorExp)):
+            if any(n is reads[0] for n in ast.walk(scope)):
+                return False
+    return True
+
+
 class ModuleInliner:
     def __init__(self, tree: ast.Module, modname: str, known: Set[str]):
         self.tree = tree
@@ -310,7 +322,7 @@ class ModuleInliner:
             if ln in caller_names or ln in arg_names or ln in aligned.values():
                 rename[ln] = f"{ln}__{h.node.name.strip('_')}"
         for p, a in args.items():
-            if p not in stored and _is_simple_arg(a):
+            if p not in stored and (_is_simple_arg(a) or (h.single_expr and _read_once_outside_loops(h.body[-1], p))):
                 subst[p] = a
             else:
                 tgt = p
